@@ -304,6 +304,42 @@ fn font(mode: &str, n: usize, h: usize, declared: i64) -> Vec<i64> {
     ]
 }
 
+/// arbitrary bytes: `BitFont::from_bytes` (h < 0) or `create_8` / `from_basic` (alternating on the parity of the
+/// data length) with height h.
+/// -> [1] on Err; [0, length, glyph count, invalid keys, max key, sum of keys mod 2^31,
+///     sum over the glyphs of (key + 1) * (1 + sum_j (j + 1) * byte_j) mod 2^31, name ok]
+fn font_bytes(h: i64, data: &[u8]) -> Vec<i64> {
+    let f = if h < 0 {
+        match BitFont::from_bytes("t", data) {
+            Ok(f) => f,
+            Err(_) => return vec![1],
+        }
+    } else if data.len() % 2 == 0 {
+        BitFont::create_8("t", 8, h as u8, data)
+    } else {
+        BitFont::from_basic(8, h as u8, data)
+    };
+    let m = 1i64 << 31;
+    let (mut invalid, mut maxk, mut sum, mut content) = (0i64, -1i64, 0i64, 0i64);
+    for (k, g) in &f.glyphs {
+        let kv = cell_code(k) as i64;
+        if !is_scalar(kv as u32) {
+            invalid += 1;
+        }
+        maxk = maxk.max(kv);
+        sum = (sum + kv) % m;
+        let mut gs = 1i64;
+        for (j, b) in g.data.iter().enumerate() {
+            gs += (j as i64 + 1) * (*b as i64);
+        }
+        content = (content + (kv + 1) % m * (gs % m)) % m;
+    }
+    // the three `0..length` loops must run without touching a non-char
+    let _ = f.convert_to_u8_data();
+    let _ = f.to_psf2_bytes();
+    vec![0, f.length as i64, f.glyphs.len() as i64, invalid, maxk, sum, content, str_ok(&f.name)]
+}
+
 /// `ESC P <dcs> ESC \` then `CSI 1 * z` on a 250-column terminal buffer: the macro body is printed on row 0.
 /// -> [errors while defining, errors while invoking, invalid cells, caret x, the first `caret x` cells of row 0]
 fn hexmacro(dcs: &str) -> Vec<i64> {
@@ -398,6 +434,7 @@ pub fn run(kind: &str, args: &[&str]) -> Option<Obs> {
         "c10clipsweep" => Ok(clip_sweep()),
         "c10icy" => Ok(icy(&unhex(args[0]))),
         "c10font" => Ok(font(args[0], args[1].parse().unwrap(), args[2].parse().unwrap(), args[3].parse().unwrap())),
+        "c10fontbytes" => Ok(font_bytes(args[0].parse().unwrap(), &unhex(args[1]))),
         "c10hexmacro" => Ok(hexmacro(&String::from_utf8(unhex(args[0])).unwrap())),
         "c10stream" => Ok(stream(&String::from_utf8(unhex(args[0])).unwrap())),
         "c10parser" => Ok(other_parser(args[0], &String::from_utf8(unhex(args[1])).unwrap())),
